@@ -6,24 +6,24 @@ ROOT = Path(__file__).resolve().parent.parent
 
 TECHNIQUE = {
     "C01": "exhaustive frame-graph exploration (edges, paths <= 2/3, anchors, complete n in [1,4096] lattice) of real Grid/Cube maps vs float64 reference",
-    "C02": "exhaustive enumeration of oriented geometries (all signed permutations + rotations) x continuous-index lattice x header chains vs SimpleITK",
+    "C02": "exhaustive enumeration of oriented geometries (all signed permutations + rotations) x continuous-index lattice x header chains, and all construct/query/setter histories (depth <= 2 pairs) on live grids, vs SimpleITK",
     "C03": "bounded explicit-state exploration of Grid derivation chains on the real objects, float64 reference grid in lock step",
-    "C04": "bounded explicit-state exploration of image operation chains on ramp-carrying images with a reference grid + validity mask in lock step",
+    "C04": "bounded explicit-state exploration of image operation chains, receiver / same-target / copy histories on live objects, on ramp-carrying images with a reference grid + validity mask in lock step",
     "C05": "exhaustive enumeration of (source grid, target grid, mode, padding, batch form, API) with impulse-basis images vs ITK resampler / numpy interpolator",
     "C06": "exhaustive enumeration of transform class x parameter menu x grid x view transitions; all views must denote one reference world map",
     "C07": "bounded exploration of all histories (make-inverse forms, edits, replacements, updates, evaluations) on (transform, inverse) pairs sharing parameters",
     "C08": "exhaustive enumeration of operand-form / batch-shape / order-string / angle-lattice products vs float64 4x4 and quaternion algebra",
     "C09": "state-dedup breadth-first search over all operation histories of live transforms (+ inverse, + copy) against a reference record",
-    "C10": "exhaustive path exploration of the 4-node vector-representation graph (paths <= 3) and representation-independence of warp/sample/exp",
+    "C10": "exhaustive path exploration of the 4-node vector-representation graph (paths <= 3), all live-grid derivation and relabel histories (depth <= 3), representation-independence of warp/sample/exp",
     "C11": "exhaustive enumeration of (shape, align_corners, generator, steps 0..8, scale, dtype, batch, API) vs closed form (I+H/2^k)^(2^k)",
     "C12": "exhaustive enumeration of (D, shape, spacing form, mode, key subset, function) on polynomial basis fields vs analytic derivatives",
     "C13": "exhaustive enumeration of field menus x {compose, bracket, BCH terms 0..5, logv o expv} x align_corners vs closed forms and algebraic relations",
-    "C14": "complete ranges stride 1..16 x derivative 0..3 x sizes 1..64 and impulse-basis coefficients vs exact rational cubic B-spline basis; subdivision chains",
-    "C15": "exhaustive sweep of the functional API surface x aliasing-sensitive argument forms, and all copy/mutate histories <= 3, with bitwise + _version fingerprints",
+    "C14": "complete ranges stride 1..16 x derivative 0..3 x sizes 1..64 and impulse-basis coefficients vs exact rational cubic B-spline basis; subdivision chains; weight-table call histories and FFD/SVFFD object histories (depth 3)",
+    "C15": "exhaustive sweep of the functional API surface x aliasing-sensitive argument forms, all copy/mutate histories and derivation chains <= 3, with bitwise + _version fingerprints of every earlier live object",
     "C16": "exhaustive enumeration of input-transformation edges (swap, a*x+b, edits outside mask, mask forms, norm, reduction, module vs functional) per loss",
     "C17": "exhaustive enumeration of field-transformation edges (add affine, scale, respace), analytic values, all six elastic-constant pairs, inverse-consistency units",
     "C18": "complete enumeration of format x D x channels x dtype x grid x compress x direction x entry point write/read chains vs exact equality and SimpleITK cross-read",
-    "C19": "exhaustive enumeration of all programs of torch operations up to length 2/3 on batches with tagged items and distinct grids; provenance decoded from data",
+    "C19": "exhaustive enumeration of all programs of torch operations up to length 2/3 (plus the length-4 observe/copy/in-place/observe family and two-object alias histories) on batches with tagged items and distinct grids; provenance decoded from data",
     "C20": "exhaustive enumeration of differentiable operations x every scalar input coordinate: autograd vs central differences with measured precision mode",
 }
 
